@@ -394,6 +394,24 @@ pub fn cmd_corpus(args: &[String]) -> i32 {
     for (fam, ty, enc) in typed {
         let mut inputs = vec![enc.clone(), reframe(&mut rng, &enc), reframe(&mut rng, &enc)];
         let muts = typed_mutations(&mut rng, &enc);
+        // types of fixed arity ([T; N], tuples, ranges, times, addresses, tagged values) meet every structural mutation of a small encoding (one
+        // element fewer or more, other framing, other tag ...): their too-few / too-many / wrong-shape errors are written per configuration
+        let fixed = fam == "tdec" && ["arr", "tup", "range", "duration", "systemtime", "ip", "sock", "tagged", "bound", "res", "unit", "phantom"].iter().any(|p| ty.starts_with(p));
+        if fixed && enc.len() <= 40 { for m in muts.iter().take(if thorough { 400 } else { 120 }) { inputs.push(m.clone()) } }
+        if fixed {
+            // the outermost array announcing one element fewer / one more / none, and written with indefinite length
+            let mut hs = Vec::new();
+            let _ = walk(&enc, 0, &mut |h| hs.push(h));
+            if let Some(h) = hs.first().copied().filter(|h| h.major == 4 && h.info != 31) {
+                for n in [h.arg.wrapping_sub(1), h.arg + 1, 0] {
+                    if n == h.arg || n > 1 << 20 { continue }
+                    let mut m = Vec::new(); head(&mut m, 4, n, if n < 24 { 0 } else { 1 }); m.extend_from_slice(&enc[h.hl..]); inputs.push(m);
+                }
+                let mut m = vec![0x9f]; m.extend_from_slice(&enc[h.hl..]); m.push(0xff); inputs.push(m);
+                // ... and really one element short (the last byte of a flat array of small integers is its last element)
+                if h.arg > 0 && enc.len() > h.hl { let mut m = Vec::new(); head(&mut m, 4, h.arg - 1, if h.arg - 1 < 24 { 0 } else { 1 }); m.extend_from_slice(&enc[h.hl..enc.len() - 1]); inputs.push(m); }
+            }
+        }
         let take = if thorough { 12 } else { 4 };
         for _ in 0..take { if !muts.is_empty() { inputs.push(muts[rng.gen_range(0..muts.len())].clone()) } }
         for b in inputs {
